@@ -93,7 +93,7 @@ class VThreadHandle:
         sched = self._vt.sched
         sched.point('thread.join')
         if self._vt.state != 'done':
-            sched.block(lambda: self._vt.state == 'done', timed=False, label='join.wait')
+            sched.block(lambda: self._vt.state == 'done', timed=timeout is not None, label='join.wait')
 
 
 class Sched:
